@@ -73,8 +73,9 @@ def main():
             if name != "BASE":
                 # mutants are applied on top of the proposed D1 fix, so that every remaining
                 # violation is due to the mutant
-                r = sh("git", "-C", WT, "apply", FIX)
-                assert r.returncode == 0, r.stdout
+                if "ifactory(wfactory(self, True))" not in open(os.path.join(WT, "dns/versioned.py")).read():
+                    r = sh("git", "-C", WT, "apply", FIX)
+                    assert r.returncode == 0, r.stdout
             if name not in ("BASE", "FIXED"):
                 path, old, new = MUTANTS[name]
                 fn = os.path.join(WT, path)
